@@ -876,7 +876,7 @@ Lemma run_list_cb_main ann held : ann_ok ann -> l_callbacks held = true ->
                    (hangs (snd p) = false -> rest = []).
 Proof.
   intros Ha Hl ids. induction ids as [|id ids IH]; intros s p; subst p; cbn [run_list].
-  - cbn. split; [reflexivity|]. exists [], []. rewrite app_nil_r. repeat split; auto.
+  - cbn. split; [reflexivity|]. exists [], []. repeat split; auto. now rewrite app_nil_r.
   - pose proof (run_script_ok rep ann Ha (cb_script E id) held (log_ev (RanCallback id) s)) as Hr.
     apply (refines_cbview _ _ _ Hl) in Hr.
     destruct (run_script rep ann held (log_ev (RanCallback id) s) (cb_script E id)) as [s' r].
@@ -902,8 +902,8 @@ Proof.
       as (A & ran & rest & B1 & B2 & B3).
     destruct (run_list rep ann (cb_script E) RanCallback (hold_callbacks held) s (st_callbacks s)) as [s' r].
     cbn [fst snd] in *. unfold cb_inv in Hi. destruct (hangs r) eqn:Hh; cbn [fst snd].
-    + split; [|intros _; rewrite Hh; discriminate]. split; [|congruence].
-      exists rest. rewrite B2, <- app_assoc, <- B1. exact Hi.
+    + split; [|intros _; rewrite Hh; discriminate]. split; [|cbn [fst snd]; congruence].
+      exists rest. cbn [fst]. rewrite B2, <- app_assoc, <- B1. exact Hi.
     + split; [|reflexivity]. apply cb_good_stay. unfold cb_inv. cbn.
       rewrite (B3 eq_refl), app_nil_r in B1. rewrite B2, app_nil_r, <- B1. exact Hi.
 Qed.
@@ -984,10 +984,476 @@ Proof.
       destruct (phase_cleanups E rep (ann1 E rep) no_locks s) as [s1 r1]. cbn [fst snd] in *.
       destruct (hangs r1) eqn:Hh1; [cbn [snd] in Hh; congruence|].
       assert (Hi1 : cb_inv R (set_event s1)) by (specialize (K eq_refl); revert K; now apply cb_inv_eq).
-      now apply (phase_callbacks_cb (ann1 E rep) ann1_ok no_locks (set_event s1) R Hi1).
-    - now apply (phase_callbacks_cb (ann1 E rep) ann1_ok no_locks s R Hi). }
+      now apply (phase_callbacks_cb (ann1 E rep) (ann1_ok E rep) no_locks (set_event s1) R Hi1).
+    - now apply (phase_callbacks_cb (ann1 E rep) (ann1_ok E rep) no_locks s R Hi). }
   split; [exact He|]. destruct Hg as [_ Hg]. specialize (Hg Hh). unfold cb_inv in Hg.
   now rewrite He, app_nil_r in Hg.
 Qed.
 
 End CallbacksOnce.
+
+(** * Failure cleanups run once, in registration order (mirror of the above) *)
+
+Definition cl_inv (R : list Z) (s : state) : Prop := cl_ids (st_log s) ++ st_cleanups s = R.
+Definition cl_pre (R : list Z) (s : state) : Prop := exists rest, cl_ids (st_log s) ++ rest = R.
+Definition cl_good (R : list Z) (p : state * cres) : Prop :=
+  cl_pre R (fst p) /\ (hangs (snd p) = false -> cl_inv R (fst p)).
+Definition ann_cl (ann : nested) : Prop :=
+  forall held s R, cl_inv R s -> cl_good R (ann held s).
+
+Lemma cl_inv_pre R s : cl_inv R s -> cl_pre R s.
+Proof. intros H. now exists (st_cleanups s). Qed.
+Lemma cl_good_stay R s r : cl_inv R s -> cl_good R (s, r).
+Proof. intros H. split; [now apply cl_inv_pre|auto]. Qed.
+Lemma cl_inv_eq R s s' :
+  cl_ids (st_log s') = cl_ids (st_log s) -> st_cleanups s' = st_cleanups s ->
+  cl_inv R s -> cl_inv R s'.
+Proof. unfold cl_inv. intros -> ->. auto. Qed.
+
+Lemma allowed_clview held c s : l_cleanups held = true -> allowed held c = true ->
+  cl_ids (st_log (cs_apply c s)) = cl_ids (st_log s) /\ st_cleanups (cs_apply c s) = st_cleanups s.
+Proof.
+  intros Hl Ha. destruct c as [| | | | | |[]| | | |]; cbn [allowed] in Ha; try rewrite Hl in Ha;
+    try discriminate; cbn [cs_apply].
+  - destruct (done s); [|now split]. unfold do_set_exception. rewrite orb_true_r. now split.
+  - unfold do_cancel_cs. destruct (done s); now split.
+  - now split.
+  - cbn. rewrite cl_ids_app. cbn. now rewrite app_nil_r.
+  - cbn. rewrite cl_ids_app. cbn. now rewrite app_nil_r.
+  - now split.
+Qed.
+
+Lemma refines_clview held s s' : l_cleanups held = true -> refines held s s' ->
+  cl_ids (st_log s') = cl_ids (st_log s) /\ st_cleanups s' = st_cleanups s.
+Proof.
+  intros Hl (l & -> & F). revert s. induction F as [|c l Hc F IH]; intros s; [now split|].
+  change (cs_run (c :: l) s) with (cs_run l (cs_apply c s)).
+  destruct (IH (cs_apply c s)) as [A B]. destruct (allowed_clview held c s Hl Hc) as [C D].
+  split; congruence.
+Qed.
+
+Section CleanupsOnce.
+Variable E : env.
+Variable rep : bool.
+
+Lemma run_call_cl ann : ann_cl ann ->
+  forall held s c R, cl_inv R s -> cl_good R (run_call rep ann held s c).
+Proof.
+  intros Ha held s c R Hi. destruct c; cbn [run_call]; try now apply cl_good_stay.
+  - destruct (done s); [|now apply cl_good_stay]. destruct (l_state held); [now apply cl_good_stay|].
+    apply cl_good_stay. revert Hi. apply cl_inv_eq; unfold do_set_exception; now rewrite orb_true_r.
+  - destruct (l_state held); [now apply cl_good_stay|].
+    destruct (do_cancel_cs msg k s) as [s' will] eqn:Hc.
+    assert (Hi' : cl_inv R s').
+    { revert Hi. unfold do_cancel_cs in Hc. destruct (done s); inversion Hc; subst; auto. }
+    destruct will; [now apply Ha|now apply cl_good_stay].
+Qed.
+
+Lemma run_script_cl ann : ann_cl ann ->
+  forall sc held s R, cl_inv R s -> cl_good R (run_script rep ann held s sc).
+Proof.
+  intros Ha sc. induction sc as [|c sc IH]; intros held s R Hi; cbn [run_script];
+    [now apply cl_good_stay|].
+  destruct (run_call_cl ann Ha held s c R Hi) as [H1 H2].
+  destruct (run_call rep ann held s c) as [s' r]. cbn [fst snd] in *.
+  destruct (hangs (in_cb r)) eqn:Hh.
+  - split; [exact H1|]. cbn [snd]. congruence.
+  - apply IH. specialize (H2 (hangs_in_cb _ Hh)). revert H2. apply cl_inv_eq; cbn; [|reflexivity].
+    rewrite cl_ids_app. cbn. now rewrite app_nil_r.
+Qed.
+
+(** cleanups do not touch the done callbacks *)
+Lemma run_list_cl_other ann scr : ann_cl ann ->
+  forall ids held s R, cl_inv R s -> cl_good R (run_list rep ann scr RanCallback held s ids).
+Proof.
+  intros Ha ids. induction ids as [|id ids IH]; intros held s R Hi; cbn [run_list];
+    [now apply cl_good_stay|].
+  assert (Hi1 : cl_inv R (log_ev (RanCallback id) s)).
+  { revert Hi. apply cl_inv_eq; cbn; [|reflexivity]. rewrite cl_ids_app. cbn. now rewrite app_nil_r. }
+  destruct (run_script_cl ann Ha (scr id) held _ R Hi1) as [H1 H2].
+  destruct (run_script rep ann held (log_ev (RanCallback id) s) (scr id)) as [s' r]. cbn [fst snd] in *.
+  destruct (hangs r) eqn:Hh.
+  - split; [exact H1|]. cbn [snd]. congruence.
+  - apply IH. now apply H2.
+Qed.
+
+Lemma phase_callbacks_cl ann : ann_cl ann ->
+  forall held s R, cl_inv R s -> cl_good R (phase_callbacks E rep ann held s).
+Proof.
+  intros Ha held s R Hi. unfold phase_callbacks.
+  destruct (l_callbacks held); [now apply cl_good_stay|].
+  destruct (run_list_cl_other ann (cb_script E) Ha (st_callbacks s) (hold_callbacks held) s R Hi) as [H1 H2].
+  destruct (run_list rep ann (cb_script E) RanCallback (hold_callbacks held) s (st_callbacks s)) as [s' r].
+  cbn [fst snd] in *. destruct (hangs r) eqn:Hh.
+  - split; [exact H1|]. cbn [snd]. congruence.
+  - apply cl_good_stay. specialize (H2 eq_refl). revert H2. now apply cl_inv_eq.
+Qed.
+
+(** the phase that runs them: under the cleanups lock nothing else can run or
+    clear them *)
+Lemma run_list_cl_main ann held : ann_ok ann -> l_cleanups held = true ->
+  forall ids s,
+  let p := run_list rep ann (cl_script E) RanCleanup held s ids in
+  st_cleanups (fst p) = st_cleanups s /\
+  exists ran rest, ids = ran ++ rest /\ cl_ids (st_log (fst p)) = cl_ids (st_log s) ++ ran /\
+                   (hangs (snd p) = false -> rest = []).
+Proof.
+  intros Ha Hl ids. induction ids as [|id ids IH]; intros s p; subst p; cbn [run_list].
+  - cbn. split; [reflexivity|]. exists [], []. repeat split; auto. now rewrite app_nil_r.
+  - pose proof (run_script_ok rep ann Ha (cl_script E id) held (log_ev (RanCleanup id) s)) as Hr.
+    apply (refines_clview _ _ _ Hl) in Hr.
+    destruct (run_script rep ann held (log_ev (RanCleanup id) s) (cl_script E id)) as [s' r].
+    cbn [fst] in Hr. destruct Hr as [A B]. cbn [log_ev st_log st_cleanups] in A, B.
+    rewrite cl_ids_app in A. cbn in A.
+    destruct (hangs r) eqn:Hh; cbn [fst snd].
+    + split; [exact B|]. exists [id], ids. split; [reflexivity|]. split; [exact A|]. congruence.
+    + destruct (IH s') as (C & ran & rest & D1 & D2 & D3).
+      split; [congruence|]. exists (id :: ran), rest. split; [now rewrite D1|]. split.
+      * rewrite D2, A, <- app_assoc. reflexivity.
+      * exact D3.
+Qed.
+
+Lemma phase_cleanups_cl ann : ann_ok ann ->
+  forall held s R, cl_inv R s ->
+  cl_good R (phase_cleanups E rep ann held s) /\
+  (is_success (st_status s) = false -> l_cleanups held = false ->
+   hangs (snd (phase_cleanups E rep ann held s)) = false ->
+   st_cleanups (fst (phase_cleanups E rep ann held s)) = []).
+Proof.
+  intros Ha held s R Hi. unfold phase_cleanups.
+  destruct (is_success (st_status s)) eqn:Hs; [split; [now apply cl_good_stay|discriminate]|].
+  destruct (l_cleanups held) eqn:Hl.
+  - split; [now apply cl_good_stay|intros _; discriminate].
+  - destruct (run_list_cl_main ann (hold_cleanups held) Ha eq_refl (st_cleanups s) s)
+      as (A & ran & rest & B1 & B2 & B3).
+    destruct (run_list rep ann (cl_script E) RanCleanup (hold_cleanups held) s (st_cleanups s)) as [s' r].
+    cbn [fst snd] in *. unfold cl_inv in Hi. destruct (hangs r) eqn:Hh; cbn [fst snd].
+    + split; [|intros _ _; rewrite Hh; discriminate]. split; [|cbn [fst snd]; congruence].
+      exists rest. cbn [fst]. rewrite B2, <- app_assoc, <- B1. exact Hi.
+    + split; [|reflexivity]. apply cl_good_stay. unfold cl_inv. cbn.
+      rewrite (B3 eq_refl), app_nil_r in B1. rewrite B2, app_nil_r, <- B1. exact Hi.
+Qed.
+
+Lemma announce_body_cl ann : ann_ok ann -> ann_cl ann -> ann_cl (announce_body E rep ann).
+Proof.
+  intros Ho Ha held s R Hi. unfold announce_body.
+  destruct (phase_cleanups_cl ann Ho held s R Hi) as [[H1 H2] _].
+  destruct (phase_cleanups E rep ann held s) as [s1 r1]. cbn [fst snd] in *.
+  destruct (hangs r1) eqn:Hh.
+  - split; [exact H1|]. cbn [snd]. congruence.
+  - apply phase_callbacks_cl; [exact Ha|]. specialize (H2 eq_refl). revert H2. now apply cl_inv_eq.
+Qed.
+
+Lemma ann0_cl : ann_cl ann0.
+Proof. intros held s R Hi. now apply cl_good_stay. Qed.
+Lemma ann1_cl : ann_cl (ann1 E rep).
+Proof. apply announce_body_cl; [apply ann0_ok|apply ann0_cl]. Qed.
+Lemma ann2_cl : ann_cl (ann2 E rep).
+Proof. apply announce_body_cl; [apply ann1_ok|apply ann1_cl]. Qed.
+
+Definition added_cl (o : op) : list Z := match o with OAddCleanup id => [id] | _ => [] end.
+Definition registered_cleanups (ops : list op) : list Z := flat_map added_cl ops.
+
+Lemma cl_good_nil R p : cl_good R p -> cl_good (R ++ []) p.
+Proof. now rewrite app_nil_r. Qed.
+
+Lemma step_cl s o R : cl_inv R s -> cl_good (R ++ added_cl o) (step E rep s o).
+Proof.
+  intros Hi. destruct o; cbn [step added_cl]; try apply cl_good_nil.
+  - now apply cl_good_stay.
+  - apply cl_good_stay. revert Hi. apply cl_inv_eq; unfold do_set_exception;
+      now destruct (negb (done s) || override).
+  - destruct (do_cancel_cs msg k s) as [s' will] eqn:Hc. apply cl_good_stay.
+    revert Hi. unfold do_cancel_cs in Hc. destruct (done s); inversion Hc; subst; auto.
+  - unfold do_transition. destruct (done s); now apply cl_good_stay.
+  - unfold do_transition. destruct (done s); now apply cl_good_stay.
+  - now apply ann2_cl.
+  - apply phase_cleanups_cl; [apply ann1_ok|exact Hi].
+  - now apply cl_good_stay.
+  - apply phase_callbacks_cl; [apply ann1_cl|exact Hi].
+  - now apply cl_good_stay.
+  - apply cl_good_stay. unfold cl_inv in *. cbn. now rewrite app_assoc, Hi.
+  - now apply cl_good_stay.
+  - apply run_call_cl; [apply ann2_cl|exact Hi].
+Qed.
+
+Lemma cl_pre_more R X s : cl_pre R s -> cl_pre (R ++ X) s.
+Proof. intros (rest & <-). exists (rest ++ X). now rewrite app_assoc. Qed.
+
+Lemma final_cl ops : forall s R, cl_inv R s ->
+  cl_pre (R ++ registered_cleanups ops) (fst (final E rep s ops)) /\
+  (snd (final E rep s ops) = false ->
+   cl_inv (R ++ registered_cleanups ops) (fst (final E rep s ops))).
+Proof.
+  induction ops as [|o ops IH]; intros s R Hi; cbn [final registered_cleanups flat_map].
+  - rewrite app_nil_r. split; [now apply cl_inv_pre|auto].
+  - destruct (step_cl s o R Hi) as [H1 H2].
+    destruct (step E rep s o) as [s' r]. cbn [fst snd] in *.
+    rewrite app_assoc. destruct (hangs r) eqn:Hh; cbn [fst snd].
+    + split; [now apply cl_pre_more|discriminate].
+    + apply IH. now apply H2.
+Qed.
+
+
+End CleanupsOnce.
+
+(** * Facts along every history *)
+
+Lemma inv_iff s : inv s ->
+  (st_exc s <> None <-> (st_status s = Failed \/ st_status s = Cancelled)).
+Proof.
+  intros [H _]. unfold has_exc in H. destruct (st_exc s), (st_status s); cbn in H; try discriminate;
+    split; intros K; try congruence; try (destruct K; discriminate); auto.
+Qed.
+
+Lemma inv_exc_done s e : inv s -> st_exc s = Some e -> done s = true.
+Proof.
+  intros [H _] He. unfold has_exc, done in *. rewrite He in H. now destruct (st_status s).
+Qed.
+
+Lemma cs_run_exc_kept l : forall s e0, inv s -> st_exc s = Some e0 ->
+  existsb replacer l = false -> st_exc (cs_run l s) = Some e0.
+Proof.
+  induction l as [|c l IH]; intros s e0 Hi He Hx; [exact He|].
+  cbn in Hx. apply orb_false_iff in Hx. destruct Hx as [Hc Hl].
+  change (cs_run (c :: l) s) with (cs_run l (cs_apply c s)).
+  apply IH; [now apply cs_inv|now apply cs_exc_kept|exact Hl].
+Qed.
+
+Section Histories.
+Variable E : env.
+Variable rep : bool.
+
+Lemma step_inv s o : inv s -> inv (fst (step E rep s o)).
+Proof. apply (step_closed E rep inv cs_inv). Qed.
+
+Lemma step_done s o : done s = true -> done (fst (step E rep s o)) = true.
+Proof. apply (step_closed E rep (fun s => done s = true) cs_done_mono). Qed.
+
+Lemma step_event s o : st_event s = true -> st_event (fst (step E rep s o)) = true.
+Proof. apply (step_closed E rep (fun s => st_event s = true) cs_event_mono). Qed.
+
+Definition along (Q : state -> op -> cres -> state -> Prop) (h : list (state * op * cres * state)) :=
+  Forall (fun t => match t with (s0, o, r, s') => Q s0 o r s' end) h.
+
+(** done is monotone; a done transfer is not restarted *)
+Lemma done_monotone_run ops s : done s = true ->
+  along (fun s0 o r s' =>
+           done s0 = true /\ done s' = true /\
+           (o = OCall CDone -> r = RBool true) /\
+           ((o = OQueued \/ o = ORunning) -> r = RRuntimeError /\ s' = s0))
+        (run E rep s ops).
+Proof.
+  apply (run_Forall E rep (fun s => done s = true)); [apply step_done|].
+  intros s0 o Hd. split; [exact Hd|]. split; [now apply step_done|]. split.
+  - intros ->. cbn. now rewrite Hd.
+  - intros [-> | ->]; cbn; unfold do_transition; rewrite Hd; now split.
+Qed.
+
+Lemma no_restart_step s : done s = true ->
+  step E rep s OQueued = (s, RRuntimeError) /\ step E rep s ORunning = (s, RRuntimeError).
+Proof. intros Hd. cbn. unfold do_transition. now rewrite Hd. Qed.
+
+(** first failure kept *)
+Lemma first_failure_step s e0 : inv s -> st_exc s = Some e0 ->
+  forall e m k,
+  step E rep s (OSetException e false) = (s, RUnit) /\
+  step E rep s (OCancel m k) = (s, RUnit) /\
+  step E rep s (OCancelCS m k) = (s, RBool false).
+Proof.
+  intros Hi He e m k. pose proof (inv_exc_done s e0 Hi He) as Hd.
+  cbn. unfold do_set_exception, do_cancel_cs. rewrite Hd. cbn. auto.
+Qed.
+
+Lemma first_failure_run ops :
+  along (fun s0 o r s' => forall e0, st_exc s0 = Some e0 ->
+           ((exists e, o = OSetException e false) \/ (exists m k, o = OCancel m k) \/
+            (exists m k, o = OCancelCS m k)) -> s' = s0)
+        (run E rep init ops).
+Proof.
+  apply (run_Forall E rep inv); [apply step_inv| |apply inv_init].
+  intros s0 o Hi e0 He Ho.
+  destruct Ho as [[e ->]|[(m & k & ->)|(m & k & ->)]];
+    destruct (first_failure_step s0 e0 Hi He (mkExn KOther 0) 0 KCancelled) as (A & B & C).
+  - destruct (first_failure_step s0 e0 Hi He e 0 KCancelled) as (A' & _). now rewrite A'.
+  - destruct (first_failure_step s0 e0 Hi He e0 m k) as (_ & B' & _). now rewrite B'.
+  - destruct (first_failure_step s0 e0 Hi He e0 m k) as (_ & _ & C'). now rewrite C'.
+Qed.
+
+(** only set_result / override / the user's set_exception (in a done state) replace *)
+Lemma replaced_step s o e0 : inv s -> st_exc s = Some e0 ->
+  st_exc (fst (step E rep s o)) <> Some e0 ->
+  (exists r, o = OSetResult r) \/ (exists e, o = OSetException e true) \/
+  (done s = true /\
+   ((exists e, o = OUserSetException e) \/ is_announce_op o = true) /\
+   exists l e, fst (step E rep s o) = cs_run l s /\
+               Forall (fun c => allowed no_locks c = true) l /\ In (CsUserSetException e) l).
+Proof.
+  intros Hi He Hne. destruct (step_cs E rep s o) as (l & Hl & F).
+  destruct (existsb replacer l) eqn:Hx.
+  2:{ exfalso. apply Hne. rewrite Hl. now apply cs_run_exc_kept. }
+  apply existsb_exists in Hx. destruct Hx as (c & Hin & Hc).
+  pose proof (proj1 (Forall_forall _ _) F c Hin) as Hoc.
+  pose proof (inv_exc_done s e0 Hi He) as Hd.
+  destruct o; cbn [cs_of_op] in Hoc; try (subst c; cbn in Hc; try discriminate).
+  - left. eauto.
+  - destruct override; [|discriminate]. right. left. eauto.
+  - right. right. split; [exact Hd|]. split; [now right|].
+    destruct c; cbn in Hc, Hoc; try discriminate; try (destruct ov; discriminate).
+    exists l, e. split; [exact Hl|]. split; [exact F|exact Hin].
+  - right. right. split; [exact Hd|]. split; [now right|].
+    destruct c; cbn in Hc, Hoc; try discriminate; try (destruct ov; discriminate).
+    exists l, e. split; [exact Hl|]. split; [exact F|exact Hin].
+  - right. right. split; [exact Hd|]. split; [now right|].
+    destruct c; cbn in Hc, Hoc; try discriminate; try (destruct ov; discriminate).
+    exists l, e. split; [exact Hl|]. split; [exact F|exact Hin].
+  - contradiction.
+  - (* OCall: only future.set_exception changes anything in a done state *)
+    destruct c0.
+    + exfalso. apply Hne. exact He.
+    + exfalso. apply Hne. exact He.
+    + exfalso. apply Hne. exact He.
+    + right. right. split; [exact Hd|]. split; [left; exists e; reflexivity|].
+      destruct c; cbn in Hc, Hoc; try discriminate; try (destruct ov; discriminate).
+      exists l, e1. split; [exact Hl|]. split; [exact F|exact Hin].
+    + exfalso. apply Hne. cbn. unfold do_cancel_cs. rewrite Hd. exact He.
+Qed.
+
+Lemma replaced_run ops :
+  along (fun s0 o r s' => forall e0, st_exc s0 = Some e0 -> st_exc s' <> Some e0 ->
+           (exists v, o = OSetResult v) \/ (exists e, o = OSetException e true) \/
+           (done s0 = true /\
+            ((exists e, o = OUserSetException e) \/ is_announce_op o = true) /\
+            exists l e, s' = cs_run l s0 /\
+                        Forall (fun c => allowed no_locks c = true) l /\
+                        In (CsUserSetException e) l))
+        (run E rep init ops).
+Proof.
+  apply (run_Forall E rep inv); [apply step_inv| |apply inv_init].
+  intros s0 o Hi e0 He Hne. exact (replaced_step s0 o e0 Hi He Hne).
+Qed.
+
+(** agreement *)
+Definition agrees (s : state) : Prop :=
+  (st_exc s <> None <-> (st_status s = Failed \/ st_status s = Cancelled)) /\
+  (st_event s = true ->
+   (forall e, st_exc s = Some e -> obs_result s = RRaises e) /\
+   (st_status s = Success ->
+    st_exc s = None /\ exists v, st_result s = Some v /\ obs_result s = RReturns (Some v))).
+
+Lemma inv_agrees s : inv s -> agrees s.
+Proof.
+  intros Hi. split; [now apply inv_iff|]. intros Hev. split.
+  - intros e He. unfold obs_result. now rewrite Hev, He.
+  - intros Hs. destruct Hi as [H1 H2]. specialize (H2 Hs).
+    unfold has_exc in H1. rewrite Hs in H1. cbn in H1.
+    destruct (st_exc s) eqn:He; [discriminate|]. split; [reflexivity|].
+    destruct (st_result s) as [v|] eqn:Hr; [|congruence]. exists v. split; [reflexivity|].
+    unfold obs_result. now rewrite Hev, He, Hr.
+Qed.
+
+Lemma agreement_run ops :
+  along (fun s0 o r s' => agrees s0 /\ agrees s' /\ (o = OCall CResult -> r = obs_result s0))
+        (run E rep init ops).
+Proof.
+  apply (run_Forall E rep inv); [apply step_inv| |apply inv_init].
+  intros s0 o Hi. split; [now apply inv_agrees|]. split; [apply inv_agrees, step_inv, Hi|].
+  now intros ->.
+Qed.
+
+(** the user's set_exception *)
+Lemma user_set_exception_step s e :
+  (done s = false -> step E rep s (OUserSetException e) = (s, RNotDone)) /\
+  (done s = true ->
+   step E rep s (OUserSetException e) = (do_set_exception e true s, RUnit) /\
+   st_exc (do_set_exception e true s) = Some e /\ st_status (do_set_exception e true s) = Failed).
+Proof.
+  split; intros Hd; cbn; rewrite Hd; [reflexivity|].
+  unfold do_set_exception. rewrite orb_true_r. cbn. auto.
+Qed.
+
+(** cleanups only from a non-success state *)
+Lemma cleanups_nonsuccess_run ops s :
+  along (fun s0 o r s' => st_status s0 = Success -> cl_ids (st_log s') = cl_ids (st_log s0))
+        (run E rep s ops).
+Proof.
+  apply (run_Forall E rep (fun _ => True)); auto.
+  intros s0 o _. apply step_success_no_cleanups.
+Qed.
+
+Lemma never_stuck_run ops s : along (fun s0 o r s' => r <> RStuck) (run E rep s ops).
+Proof.
+  apply (run_Forall E rep (fun _ => True)); auto. intros s0 o _. apply step_never_stuck.
+Qed.
+
+End Histories.
+
+Lemma no_self_deadlock_run E ops s :
+  along (fun s0 o r s' => r = RSelfDeadlock -> done s0 = false /\ is_announce_op o = true)
+        (run E true s ops).
+Proof.
+  apply (run_Forall E true (fun _ => True)); auto. intros s0 o _. apply step_no_self_deadlock.
+Qed.
+
+(** the discipline every caller in the library follows: announce only once done *)
+Lemma no_self_deadlock_disciplined E ops s :
+  along (fun s0 o r s' => is_announce_op o = true -> done s0 = true) (run E true s ops) ->
+  along (fun s0 o r s' => r <> RSelfDeadlock /\ r <> RStuck) (run E true s ops).
+Proof.
+  intros Hd. pose proof (no_self_deadlock_run E ops s) as H1.
+  pose proof (never_stuck_run E true ops s) as H2. unfold along in *.
+  rewrite Forall_forall in *. intros [[[s0 o] r] s'] Hin.
+  specialize (Hd _ Hin). specialize (H1 _ Hin). specialize (H2 _ Hin). cbn in *.
+  split; [|exact H2]. intros Hr. destruct (H1 Hr) as [A B]. rewrite (Hd B) in A. discriminate.
+Qed.
+
+(** at most once, by counting *)
+Lemma prefix_count (l rest R : list Z) id : l ++ rest = R ->
+  (count_occ Z.eq_dec l id <= count_occ Z.eq_dec R id)%nat.
+Proof. intros <-. rewrite count_occ_app. lia. Qed.
+
+(** * Callbacks that do not call the future (ids only) *)
+
+Definition core (s : state) := (st_status s, st_exc s, st_result s).
+
+Lemma run_list_plain_core rep ann scr mk held ids : (forall id, scr id = []) ->
+  forall s, core (fst (run_list rep ann scr mk held s ids)) = core s.
+Proof.
+  intros Hs. induction ids as [|id ids IH]; intros s; cbn [run_list]; [reflexivity|].
+  rewrite Hs. cbn [run_script hangs]. now rewrite IH.
+Qed.
+
+Lemma announce_plain_core rep s o : is_announce_op o = true ->
+  core (fst (step no_scripts rep s o)) = core s.
+Proof.
+  assert (Hc : forall ann held s0, core (fst (phase_cleanups no_scripts rep ann held s0)) = core s0).
+  { intros ann held s0. unfold phase_cleanups. destruct (is_success (st_status s0)); [reflexivity|].
+    destruct (l_cleanups held); [reflexivity|].
+    pose proof (run_list_plain_core rep ann (cl_script no_scripts) RanCleanup (hold_cleanups held)
+                  (st_cleanups s0) (fun _ => eq_refl) s0) as H.
+    destruct (run_list rep ann (cl_script no_scripts) RanCleanup (hold_cleanups held) s0 (st_cleanups s0))
+      as [s' r]. cbn [fst] in *. destruct (hangs r); exact H. }
+  assert (Hb : forall ann held s0, core (fst (phase_callbacks no_scripts rep ann held s0)) = core s0).
+  { intros ann held s0. unfold phase_callbacks. destruct (l_callbacks held); [reflexivity|].
+    pose proof (run_list_plain_core rep ann (cb_script no_scripts) RanCallback (hold_callbacks held)
+                  (st_callbacks s0) (fun _ => eq_refl) s0) as H.
+    destruct (run_list rep ann (cb_script no_scripts) RanCallback (hold_callbacks held) s0 (st_callbacks s0))
+      as [s' r]. cbn [fst] in *. destruct (hangs r); exact H. }
+  destruct o; try discriminate; intros _; cbn [step].
+  - unfold ann2, announce_body. specialize (Hc (ann1 no_scripts rep) no_locks s).
+    destruct (phase_cleanups no_scripts rep (ann1 no_scripts rep) no_locks s) as [s1 r1]. cbn [fst] in Hc.
+    destruct (hangs r1); [exact Hc|]. rewrite Hb. exact Hc.
+  - apply Hc.
+  - apply Hb.
+Qed.
+
+Lemma replaced_plain rep s o e0 : inv s -> st_exc s = Some e0 ->
+  st_exc (fst (step no_scripts rep s o)) <> Some e0 ->
+  (exists r, o = OSetResult r) \/ (exists e, o = OSetException e true) \/
+  (done s = true /\ exists e, o = OUserSetException e).
+Proof.
+  intros Hi He Hne.
+  destruct (replaced_step no_scripts rep s o e0 Hi He Hne) as [H|[H|(Hd & [H|H] & _)]]; auto.
+  exfalso. apply Hne. pose proof (announce_plain_core rep s o H) as Hc. unfold core in Hc.
+  inversion Hc. congruence.
+Qed.
